@@ -21,7 +21,7 @@ META = {
     'design_ref': 'C15',
 }
 
-EPS = 0.03 + 1e-6
+EPS = 0.03 + 1e-3
 
 
 class H(c14.H):
